@@ -24,8 +24,12 @@ CORPUS = [
     "select case when (select max(a) from s) > 1 then (select b from u) else 0 end as k from v",
     "insert overwrite table t partition (p='x') select * from s lateral view explode(arr) e as v",
     "select {{ a }} from b where x = '{{'",
+    # repaired D29 / D30
+    "rename table a to b, b to a",
+    "insert into a select * from x; rename table a to b, b to a",
+    "update only t set a = s.b from s",
 ]
-DIALECTS = ["ansi", "non-validating", "sparksql", "tsql", "vertica", "mysql", "bigquery", "snowflake"]
+DIALECTS = ["ansi", "non-validating", "sparksql", "tsql", "vertica", "mysql", "bigquery", "snowflake", "postgres"]
 NOISE = [",", ")", "(", ";", "'", '"', "{{", "{#", "select", "from", ".", "*", "--", "/*", "1"]
 KNOWN = [("rename table b to c, c to d", "NetworkXError")]
 
